@@ -10,7 +10,7 @@ from ..world import WHO, World
 
 LEVEL = 'model_checking'
 RULE = ('(a) stop(timeout in {None, 0, 0.3}) issued by main at every point of: idle bus, backlog of 1-3 events, handler mid-flight (paused, awaiting a child on own / other bus), '
-        'with a second bus running; (b) the exact shutdown sequence of asyncio.run() (cancel every task, gather them) executed on the virtual loop when main returns with 1-2 buses '
+        'with a second bus running; (b) the exact shutdown sequence of asyncio.run() (cancel every task - in creation order and in reverse creation order, since the real order is that of a set - then gather them) executed on the virtual loop when main returns with 1-2 buses '
         'left running in each of those states -- no private attribute is touched. all schedules <= L deviations. non-trivial = the bus had queued or in-flight work, or a live run-loop '
         'task, when stop()/cancellation arrived; distinct = distinct recorder traces')
 ASSUMPTIONS = ['asyncio.run() is represented by its task-cancellation sequence (cancel all tasks, run gather(*tasks, return_exceptions=True) to completion) on the virtual loop',
@@ -33,16 +33,20 @@ class ShutdownWorld(World):
         except BaseException as e:
             return ('raised', f'{type(e).__name__}: {e}')
         self.phase = 'shutdown'
-        to_cancel = [t for t in asyncio.all_tasks(loop) if not t.done()]
+        # asyncio.run() cancels the tasks in the (address-dependent) order of a set: the order is a scenario dimension here
+        to_cancel = sorted((t for t in asyncio.all_tasks(loop) if not t.done()), key=lambda t: getattr(t, '_vseq', 0), reverse=(self.spec.get('cancel_order') == 'newest_first'))
         self.extra['tasks_at_exit'] = len(to_cancel)
         self.rec('cancel-all', len(to_cancel))
         for t in to_cancel:
             t.cancel()
         loop.horizon = loop.now() + 6.0
+        # from here on the environment answers nothing: every task was told to stop and must do so without further stimulus
+        # (harness handlers never swallow CancelledError, so a task still waiting on the environment was not really cancelled)
+        loop.stalled = True
         try:
             loop.run_until_complete(_gather(to_cancel))
         except Horizon as e:
-            alive = sorted((t.get_name() or '?').split('(')[0][:40] + ':' + getattr(t.get_coro(), '__qualname__', '?') for t in to_cancel if not t.done())
+            alive = sorted(getattr(t.get_coro(), '__qualname__', '?') for t in to_cancel if not t.done())  # (task names carry a process-global counter)
             self.extra['alive'] = alive
             self.rec('shutdown-hang', tuple(alive))
             return ('hang', 'shutdown: ' + str(e))
@@ -111,8 +115,9 @@ def families(tier):
             continue
         if hist is None and not sname.startswith('awaiting_child') and sname != 'two_buses':
             continue
-        for order in ([names] if len(names) == 1 else [names, names[::-1]]):
-            out.append(dict(prop='C16', family='c16.shutdown', id=f'c16/shutdown-{sname}-p{int(par)}-h{hist}-o{"".join(order)}', cfg=cfg, params=dict(state=sname, tmo=None), mode='shutdown',
+        for order, corder in itertools.product([names] if len(names) == 1 else [names, names[::-1]], ('oldest_first', 'newest_first')):
+            out.append(dict(prop='C16', family='c16.shutdown', id=f'c16/shutdown-{sname}-p{int(par)}-h{hist}-o{"".join(order)}-{corder}', cfg=cfg, params=dict(state=sname, tmo=None), mode='shutdown',
+                            cancel_order=corder,
                             scn=dict(buses={b: dict(parallel=par, hist=hist) for b in names}, order=order, handlers=hs, main=list(pre), actors=[], forwards=[])))
     return out
 
